@@ -27,9 +27,39 @@ type verifCase struct {
 // verifStep is one call of a history: an entry point WITH options (conf-json, conf-yaml, map-canon) or an
 // option-less one (json-bytes, json-reader, json-map, yaml-bytes, yaml-reader, parse-body).
 type verifStep struct {
-	Op    string         `json:"op"`
-	Shape c05shape.Shape `json:"shape"`
-	Text  string         `json:"text"`
+	Op     string         `json:"op"`
+	Shape  c05shape.Shape `json:"shape"`
+	Text   string         `json:"text"`
+	Mutate bool           `json:"mutate"` // after the call, overwrite the result's slices in place and report it again
+}
+
+// verifMutate overwrites, in place, every element of the scalar slices reachable from v; of a slice of structs only
+// the FIRST element is entered (its siblings must stay as they were unmarshalled).
+func verifMutate(v reflect.Value) {
+	switch v.Kind() {
+	case reflect.Ptr:
+		if !v.IsNil() {
+			verifMutate(v.Elem())
+		}
+	case reflect.Struct:
+		for i := 0; i < v.NumField(); i++ {
+			verifMutate(v.Field(i))
+		}
+	case reflect.Slice:
+		for i := 0; i < v.Len(); i++ {
+			e := v.Index(i)
+			switch e.Kind() {
+			case reflect.String:
+				e.SetString("MUTATED")
+			case reflect.Int, reflect.Int8, reflect.Int16, reflect.Int32, reflect.Int64:
+				e.SetInt(-1)
+			case reflect.Struct:
+				if i == 0 {
+					verifMutate(e)
+				}
+			}
+		}
+	}
 }
 
 func verifStepRun(st verifStep) map[string]any {
@@ -37,7 +67,20 @@ func verifStepRun(st verifStep) map[string]any {
 	if panicked, pv := verifdrv.Catch(func() { typ = st.Shape.Build() }); panicked {
 		return map[string]any{"r": "err", "msg": "shape: " + pv}
 	}
-	return c05shape.RunInto(typ, func(v any) error {
+	var target reflect.Value
+	res := c05shape.RunInto(typ, func(v any) error {
+		target = reflect.ValueOf(v)
+		return verifStepCall(st, v)
+	})
+	if st.Mutate && res["r"] == "ok" && target.IsValid() {
+		verifMutate(target.Elem())
+		res["after"] = c05shape.Dump(target.Elem())
+	}
+	return res
+}
+
+func verifStepCall(st verifStep, v any) error {
+	{
 		switch st.Op {
 		case "conf-json":
 			return LoadFromJsonBytes([]byte(st.Text), v)
@@ -65,7 +108,7 @@ func verifStepRun(st verifStep) map[string]any {
 			return httpx.ParseJsonBody(r, v)
 		}
 		panic("verif: unknown op " + st.Op)
-	})
+	}
 }
 
 // TestVerifDriver loads the re-spelled document with LoadFromJsonBytes (and LoadFromYamlBytes) and tabulates toCamelCase.
